@@ -12,5 +12,12 @@ for b in sorted({p["binary"] for p in PROPS.values()}):
     out, t = run_check.build(b)
     print("built", b, out, "%.0fs" % t)
     ok = ok and out is not None
+# C19's extra builds: the race-detector build and the build with a shiftable wall clock (a failure of the
+# latter only means that the skewed replica is not run)
+out, t = run_check.build("appmon", race=True)
+print("built appmon -race", out, "%.0fs" % t)
+ok = ok and out is not None
+out, t = run_check.build("appmon", skew=True)
+print("built appmon (skewed clock)", out, "%.0fs" % t)
 sys.exit(0 if ok else 1)
 PY
